@@ -31,10 +31,10 @@ CHECKS = {
                 rule="as C04; probes count cyclic graphs and handed cycle errors",
                 assumptions=["termination is judged under fair schedules (fairness bound 128)", "step budget 100000 per build (typical builds use 30-300 steps)"]),
     "C09": dict(engine="runner", category="exploration",
-                text="Same engine as C04 with the simulator's NumCPU as the limit L in {1,2,3,4,8,16}. Invariants at every yield: executing <= L; 0 <= free slots <= L; executing <= L - free; at quiescence free == L; acyclic graphs complete at every L (esp. 1). The gate's free-slot count is read by reflection.",
+                text="Same engine as C04 with the simulator's NumCPU as the limit L in {1,2,3,4,8,16}. Invariants at every yield: executing <= L; 0 <= free slots <= L; executing <= L - free; at quiescence free == L; acyclic graphs complete at every L (esp. 1). The gate's free-slot count is read by reflection. 6 of the 16 workers run the project-level form: real projects built by the real Project/runner with NumCPU in {1,2,3,4,8,16}; the number of target bodies between their start and end never exceeds the limit, and acyclic projects finish at every limit.",
                 note="If a changed tree has no runner.gate.capacity field the slot-count invariants are skipped (counted in evidence as gate_not_readable) and only the behavioural ones remain.",
-                technique="deterministic simulation: seeded scheduler, conservation invariants at every yield",
-                design="§4 C09", real=REAL_E1,
+                technique="deterministic simulation: seeded scheduler, conservation invariants at every yield; plus the project-level form on real projects (E2)",
+                design="§4 C09, §12.2", real=REAL_E1 + " || project-level form: " + REAL_E2, also="dawn",
                 rule="as C04; probes count runs in which the gate was full / contended at limit 1",
                 assumptions=["'executing' is counted by the harness targets: inside LoadTarget/Evaluate and outside EvaluateTargets"]),
 }
